@@ -60,7 +60,7 @@ type Case struct {
 	Diff     string `json:"diff,omitempty"`
 }
 
-var faultKinds = []string{"string", "table", "nil", "bool", "gopanic", "goruntime"}
+var faultKinds = []string{"string", "table", "nil", "bool", "gopanic", "goruntime", "number"}
 
 func eclassStr(s string) string {
 	switch {
